@@ -47,6 +47,13 @@ def is_initial(tls):
             tls['PACKRAT_STORAGE'].fields[0].data['entries'] == 0)
 
 
+def _initial_safe(tls):
+    try:
+        return bool(is_initial(tls))
+    except Exception:
+        return False        # a memo count that is still symbolic has not been reset
+
+
 def run_paths(body, max_paths=2000):
     mdl = Models()
     G.install(mdl, None)
@@ -163,6 +170,12 @@ def entry_case(name, inner):
                 s0 = seen['sub'][0]
                 notes.append('%s: the first sub-parser of %s (%s) runs on a thread state that is not the initial one (directive depth %d, keyword-version depth %d, memo entries %d)' % (
                     name, inner, s0[0], s0[2], s0[3], s0[4]))
+            if not seen['sub'] and seen.get('inner_result') is not None and not _initial_safe(it.env['tls']):
+                # the start symbol reached its sub-parsers only through an abstract repetition step (nothing passed the hook):
+                # the stubs do not touch the thread state, so the state left behind is the one those sub-parsers run on
+                tls = it.env['tls']
+                notes.append('%s: the sub-parsers of %s run on a thread state that is not the initial one (directive depth %d, keyword-version depth %d, memo entries %s)' % (
+                    name, inner, len(tls['IN_DIRECTIVE'].fields[0].fields), len(tls['CURRENT_VERSION'].fields[0].fields), tls['PACKRAT_STORAGE'].fields[0].data['entries']))
             ir = seen.get('inner_result')
             if ir is not None:
                 ir = it.concretize(ir)
